@@ -14,6 +14,8 @@ whose template matches") holds without it.
 -/
 import DropshotProofs.Lemmas.RouterInv
 import DropshotProofs.C05
+import DropshotProofs.C03
+import DropshotModel.Dispatch
 
 namespace Dropshot.C01
 open Dropshot
@@ -455,5 +457,64 @@ example : accepted sampleTable = true ∧
 
 example : ∀ e ∈ sampleTable, Range.WF e.versions := by decide
 
+/-! ### The whole of `lookup_route`: request path bytes -> segments -> dispatch
+
+`lookupRoute` composes the C03 path model with the trie walk.  What the trie
+walk is given is a function of the percent-decoded non-empty raw segments of
+the path and of nothing else about its spelling. -/
+
+/-- **Dispatch, from the request path (partial: outside K1).**  A request is
+handled by `e` with bindings `vars` iff its path is accepted and, on the
+percent-decoded non-empty raw segments - each decoded once, segment boundaries
+given by the raw `/` alone - `e` is a registered endpoint whose method, template
+and version range match, `vars` being the template's bindings (a trailing
+wildcard: all remaining decoded segments). -/
+theorem route_dispatch_iff_partial (conv : Bytes → String) (es : List (Endpoint V)) (t : Node V)
+    (hr : ∀ e ∈ es, Range.WF e.versions) (h : insertAll Node.empty es = .ok t)
+    (hK : t.NoExactBesideWild) (m : String) (p : Bytes) (v : V) (e : Endpoint V) (vars : Vars) :
+    lookupRoute conv t m p (some v) = .ok (e, vars) ↔
+      (∃ ss, Path.inputSegments p = .ok ss) ∧ e ∈ es ∧ normMethod e.method = normMethod m ∧
+        matchT e.path (((Path.rawSegments p).map Percent.pctDecode).map conv) = some vars ∧
+        Range.Mem v e.versions := by
+  unfold lookupRoute
+  cases hp : Path.inputSegments p with
+  | error err => simp
+  | ok ss =>
+    have hss := C03.decode_once p ss hp
+    simp only [Except.ok.injEq, exists_eq', true_and]
+    rw [← hss, ← dispatch_iff_partial es t hr h hK m (ss.map conv) v e vars]
+    cases t.lookup m (ss.map conv) (some v) with
+    | ok r => simp
+    | error err => cases err <;> simp
+
+/-- A path with a dot segment in any spelling, or a segment that is not UTF-8
+after decoding, reaches no endpoint whatever the table holds: 400. -/
+theorem route_bad_path (conv : Bytes → String) (t : Node V) (m : String) (p r : Bytes) (v : Option V)
+    (hr : r ∈ Path.rawSegments p)
+    (hd : Percent.pctDecode r = Path.dot ∨ Percent.pctDecode r = Path.dotdot ∨
+      Utf8.utf8Valid (Percent.pctDecode r) = false) :
+    lookupRoute conv t m p v = .error .badRequest := by
+  have : ∃ e, Path.inputSegments p = .error e := by
+    rcases hd with hd | hd | hd
+    · exact C03.dot_rejected p r hr (Or.inl hd)
+    · exact C03.dot_rejected p r hr (Or.inr hd)
+    · exact C03.utf8_rejected p r hr hd
+  obtain ⟨e, he⟩ := this
+  simp [lookupRoute, he]
+
+/-- Respellings of a path (any number of `/` before, between and after the same
+segments) get the same answer from every table, hit or miss - including tables
+with a route for exactly a path beside a wildcard below it. -/
+theorem route_slash_invariant (conv : Bytes → String) (t : Node V) (m : String) (p q : Bytes)
+    (v : Option V) (h : Path.canon p = Path.canon q) :
+    lookupRoute conv t m p v = lookupRoute conv t m q v := by
+  simp only [lookupRoute, C03.slash_equiv p q h]
+
+/-- An encoded slash stays inside its segment: `/f/a%2Fb` gives the wildcard of
+`/f/{rest:.*}` the one component `a/b`, not two. -/
+example : (match lookupRoute (V := Nat) (fun b => String.ofList (b.map Char.ofNat))
+      (tableOf sampleTable) "GET" [47, 102, 47, 97, 37, 50, 70, 98] (some 1) with
+    | .ok r => isHit (.ok r) 3 [("rest", .comps ["a/b"])]
+    | .error _ => false) = true := by decide
 
 end Dropshot.C01
